@@ -387,6 +387,12 @@ func minimise(inPath, outPath string, budget time.Duration) int {
 	}
 	tape := v.Tape
 	ok, t2 := fails(plan, tape)
+	if !ok && v.Class == simrt.ClassBudget {
+		// with 20x the probe budget the run ends (or spends its time elsewhere): slow, not
+		// shown to be non-terminating - not a verdict
+		fmt.Fprintln(os.Stderr, "BUDGET-NOT-CONFIRMED: the run that exhausted its probe budget does not show the same non-termination with 20x the budget")
+		return 3
+	}
 	if !ok {
 		fmt.Fprintln(os.Stderr, "minimise: recorded violation does not reproduce")
 		return 2
